@@ -482,6 +482,12 @@ where
             return Ok(r);
         }
 
+        if n == 1 {
+            // The square-and-multiply below would return `x` itself, not reduced modulo `m`.
+            let (_, r) = self.div_rem(layouter, x, m)?;
+            return Ok(r);
+        }
+
         let mut n = n;
         let mut tmp = x.clone();
         let mut res = None;
